@@ -100,7 +100,9 @@ pub fn run(case: &TwCase, viols: &mut Vec<Violation>) -> Out {
         out.tag("tweedie_start_outside_objective_domain_out_of_domain");
         return out;
     }
+    let t0=std::time::Instant::now();
     let own = refopt::lm_newton(&fgh, &start, 1e-10, 300);
+    crate::T_OWN.fetch_add(t0.elapsed().as_micros() as u64, std::sync::atomic::Ordering::Relaxed);crate::T_OWN_IT.fetch_add(own.iters as u64, std::sync::atomic::Ordering::Relaxed);
     let eta_max = case.x.iter().map(|xi| refopt::bin_score(xi, &own.x, case.intercept).abs()).fold(0.0f64, f64::max);
     if !own.converged || eta_max > 30.0 {
         out.ood = true;
@@ -109,7 +111,11 @@ pub fn run(case: &TwCase, viols: &mut Vec<Violation>) -> Out {
     }
 
     // ---- fit with the real code ----
-    let model = match guarded(|| params.fit(&ds)) {
+    let t0=std::time::Instant::now();
+    let fitres = guarded(|| params.fit(&ds));
+    let el=t0.elapsed().as_micros() as u64; if el>50000 {eprintln!("SLOW {} us p={} link={} a={} i={} y={:?}", el, case.power, case.link, case.alpha, case.intercept, case.y);}
+    crate::T_FIT.fetch_add(el, std::sync::atomic::Ordering::Relaxed);
+    let model = match fitres {
         Ok(Ok(m)) => m,
         Ok(Err(e)) => {
             viols.push(Violation::new(
